@@ -5,14 +5,16 @@ as they were) / check2.txt (seedcheck.sh after strengthening, when the first one
 import json, os, re, shutil, subprocess, sys
 rnd, srcroot = sys.argv[1], sys.argv[2]
 ROOT = os.path.dirname(os.path.dirname(os.path.abspath(__file__)))
-for pid in sorted(os.listdir(srcroot)):
-    out = os.path.join(srcroot, pid, 'out')
-    c1 = os.path.join(srcroot, pid, 'check.txt')
+for name in sorted(os.listdir(srcroot)):
+    # directory names are <ID> or <ID><suffix> (e.g. C07a, C07b: two changes of one round)
+    pid, suffix = name[:3], name[3:]
+    out = os.path.join(srcroot, name, 'out')
+    c1 = os.path.join(srcroot, name, 'check.txt')
     if not (os.path.exists(os.path.join(out, 'patch.diff')) and os.path.exists(c1)):
-        print('skip', pid); continue
+        print('skip', name); continue
     def lines(p):
         return [l.rstrip('\n') for l in open(p) if re.match(r'^(RESULT|SUITE|DEMO|CHECK)', l)] if os.path.exists(p) else []
-    l1, l2 = lines(c1), lines(os.path.join(srcroot, pid, 'check2.txt'))
+    l1, l2 = lines(c1), lines(os.path.join(srcroot, name, 'check2.txt'))
     suite = next((l for l in l1 if l.startswith('SUITE')), '')
     demo = next((l for l in l1 if l.startswith('DEMO')), '')
     chk1 = next((l for l in l1 if l.startswith('CHECK')), '')
@@ -23,7 +25,7 @@ for pid in sorted(os.listdir(srcroot)):
     final = chk1 if caught1 else chk2
     if ' rc=1 ' not in final + ' ':
         print('NOT CAUGHT', pid, chk1, chk2); continue
-    dst = os.path.join(ROOT, 'seeded', '%s-r%s' % (pid, rnd))
+    dst = os.path.join(ROOT, 'seeded', '%s-r%s%s' % (pid, rnd, suffix))
     shutil.rmtree(dst, ignore_errors=True)
     os.makedirs(os.path.join(dst, 'demo'))
     shutil.copy(os.path.join(out, 'patch.diff'), dst)
